@@ -75,7 +75,7 @@ def verify_function(qualname):
     load_contracts()
     K = dsl.CONTRACTS[qualname]
     recs = []
-    F = idx.get(qualname)
+    F = idx.get(qualname.split('@')[0])
     desc = F.describe() if F else {"function": qualname, "file": None}
     for var in variants_of(K):
         eng = engine.Engine(idx)
@@ -90,11 +90,18 @@ def verify_function(qualname):
             recs.append({"name": f"{qualname}{tag}:*", "kind": "generation", "function": qualname, "status": "undecided",
                          "backend": "pyvc", "ms": 0.0, "note": f"generator error: {type(exc).__name__}: {exc}\n{traceback.format_exc(limit=4)}"})
             continue
+        slow = 0
         for ob in obls:
             if tag:
                 ob.name = ob.name.replace(":", tag + ":", 1)
+            if slow >= 3 and ob.expect != "sat":
+                recs.append({"name": ob.name, "kind": ob.kind, "function": qualname, "status": "undecided", "backend": "skipped",
+                             "ms": 0.0, "note": "solver budget of this function exhausted by earlier undecided obligations"})
+                continue
             try:
                 rec = solve.discharge(ob)
+                if rec["status"] == "undecided":
+                    slow += 1
             except Exception as exc:  # noqa: BLE001
                 rec = {"name": ob.name, "kind": ob.kind, "function": qualname, "status": "undecided", "backend": "solver-error", "ms": 0.0, "note": str(exc)}
             recs.append(rec)
